@@ -121,30 +121,31 @@ func builtinDateSetTime(call FunctionCall) Value {
 func builtinDateBeforeSet(call FunctionCall, argumentLimit int, timeLocal bool) (*object, *dateObject, *ecmaTime, []int) {
 	obj := call.thisObject()
 	date := dateObjectOf(call.runtime, call.thisObject())
-	if date.isNaN {
-		return nil, nil, nil, nil
-	}
 
 	if argumentLimit > len(call.ArgumentList) {
 		argumentLimit = len(call.ArgumentList)
 	}
 
-	if argumentLimit == 0 {
-		obj.value = invalidDateObject
-		return nil, nil, nil, nil
-	}
-
+	// ToNumber is applied to every supplied argument, in order, whatever the
+	// state of the date or the value of an earlier argument (15.9.5.28 ff).
 	valueList := make([]int, argumentLimit)
+	invalid := argumentLimit == 0
 	for index := range argumentLimit {
 		value := call.ArgumentList[index]
 		nm := value.number()
 		switch nm.kind {
 		case numberInteger, numberFloat:
 		default:
-			obj.value = invalidDateObject
-			return nil, nil, nil, nil
+			invalid = true
 		}
 		valueList[index] = int(nm.int64)
+	}
+	if date.isNaN {
+		return nil, nil, nil, nil
+	}
+	if invalid {
+		obj.value = invalidDateObject
+		return nil, nil, nil, nil
 	}
 	baseTime := date.Time()
 	if timeLocal {
